@@ -1,4 +1,4 @@
 (** Extraction of the tlssession engine (C17). Directives: ExtrOcamlBasic only. *)
 From Coq Require Import ExtrOcamlBasic.
-From Qv Require Import Common.Bytes Model.NetRead Model.Session Model.Trace Spec.SessionSpec Model.TlsSwitch Spec.TlsSpec.
-Extraction "m.ml" trun spec_ok_C17 ttrace_run shape_ok a_init trace_header submission_port.
+From Qv Require Import Common.Bytes Model.NetRead Model.Session Model.Trace Spec.SessionSpec Model.TlsSwitch Spec.TlsSpec Model.SpfBase Model.SpfEnv Model.SpfMacro Model.Spf.
+Extraction "m.ml" trun spec_ok_C17 ttrace_run shape_ok a_init trace_header trace_header_with check_host_c spfreceived octets_to_N submission_port.
